@@ -353,7 +353,7 @@ pub fn cluster_pairs(tier: &str) -> (u64, u64, Vec<Viol>) {
     let all_res: Vec<i32> = if quick { vec![6, 12, 27] } else { vec![4, 6, 9, 12, 16, 20, 24, 27, 29] };
     let faces: &[usize] = if quick { &[3] } else { &[0, 3, 8, 11] };
     let fracs: &[f64] = if quick { &[0.1, 0.4, 0.95] } else { &[0.1, 0.3, 0.5, 0.7, 0.9, 0.97] };
-    let mut jobs: Vec<(V3, i32)> = Vec::new();
+    let mut jobs: Vec<(V3, i32, Option<V3>)> = Vec::new();
     let mut k = 0usize;
     for &face in faces {
         let c = f.centres[face];
@@ -361,21 +361,38 @@ pub fn cluster_pairs(tier: &str) -> (u64, u64, Vec<Viol>) {
         for t in &targets {
             for &fr in fracs {
                 let p = rg::offset(rg::unit(rg::add(rg::scale(c, 1.0 - fr), rg::scale(*t, fr))), 0.013, 0.007);
-                jobs.push((p, all_res[k % all_res.len()]));
+                jobs.push((p, all_res[k % all_res.len()], None));
                 k += 1;
             }
+        }
+    }
+    // the 20 dodecahedron vertices (three faces meet) and points one cell beside them
+    let vres: Vec<i32> = if quick { vec![8, 14, 22] } else { vec![5, 8, 11, 14, 17, 20, 22, 26, 29] };
+    for (vi, v) in f.vertices.iter().enumerate() {
+        if quick && vi % 2 == 1 {
+            continue;
+        }
+        for (m, &r) in vres.iter().enumerate() {
+            if quick && (vi / 2 + m) % 3 != 0 {
+                continue;
+            }
+            let sz = geo::cell_size(r);
+            jobs.push((rg::offset(*v, 0.21 * sz, -0.13 * sz), r, Some(*v)));
         }
     }
     let cap = if quick { 150 } else { 320 };
     let res: Vec<(u64, Vec<Viol>)> = jobs
         .par_iter()
-        .map(|&(p, r)| {
-            // a 30 x 30 grid over +-1.5 cell sizes; a point takes part when the cell a lookup returns
-            // strictly contains it by the planar test (then that cell is THE cell of the point) and the
-            // lookup was not answered by its first estimate
+        .map(|&(p, r, zoom)| {
+            // a 30 x 30 grid over +-1.5 cell sizes. Phase 1: the cells all lookups of the grid return (plus
+            // their numeric neighbours' parents' children) are the candidates. Phase 2: every grid point is
+            // classified against ALL candidates with the planar test: the candidate that contains it by more
+            // than 0.8 % of its diameter is THE cell of the point, whatever the lookup of that point said.
+            // Phase 3: every such point must look up to its cell (a); those not answered by the first
+            // estimate then run as all ordered pairs on one thread (b).
             let sz = geo::cell_size(r);
             let g = 30usize;
-            let mut pts: Vec<(f64, f64, u64)> = Vec::new();
+            let mut grid: Vec<(f64, f64, Option<u64>, i32)> = Vec::new();
             let mut polys: std::collections::HashMap<u64, (u8, Vec<rg::P2>)> = std::collections::HashMap::new();
             for i in 0..g {
                 for j in 0..g {
@@ -384,19 +401,102 @@ pub fn cluster_pairs(tier: &str) -> (u64, u64, Vec<Viol>) {
                     let (lo, la) = rg::vec_to_ll(rg::offset(p, x, y));
                     let (res, branch) = subj::lookup_branch(lo, la, r);
                     let c = match res {
-                        Ok(c) if rc::resolution(c) == Some(r) && branch != 1 => c,
-                        _ => continue,
+                        Ok(c) if rc::resolution(c) == Some(r) && rc::is_canonical(c) => Some(c),
+                        _ => None,
                     };
-                    let entry = polys.entry(c).or_insert_with(|| geo::cell_poly(c).unwrap_or((0, vec![])));
-                    if entry.1.is_empty() {
-                        continue;
+                    if let Some(c) = c {
+                        let mut fam = vec![c];
+                        if let Some(pp) = rc::parent(c) {
+                            fam.extend(rc::children(pp));
+                        }
+                        for x in fam {
+                            polys.entry(x).or_insert_with(|| geo::cell_poly(x).unwrap_or((0, vec![])));
+                        }
                     }
-                    if let Ok(q) = subj::forward(rg::ll_to_vec(lo, la), entry.0) {
-                        if rg::signed_dist_convex(&entry.1, q) >= 0.02 * rg::diameter(&entry.1) {
-                            pts.push((lo, la, c));
+                    grid.push((lo, la, c, branch));
+                }
+            }
+            // zoom ladder around a dodecahedron vertex: 60 x 60 grids over +-0.3, +-0.06 and +-0.012 cell sizes
+            // centred on the vertex itself (spots much smaller than a cell where three faces meet)
+            if let Some(vtx) = zoom {
+                for half in [0.3, 0.06, 0.012] {
+                    let gz = 60usize;
+                    for i in 0..gz {
+                        for j in 0..gz {
+                            let x = ((i as f64 + 0.41) / gz as f64 - 0.5) * 2.0 * half * sz;
+                            let y = ((j as f64 + 0.37) / gz as f64 - 0.5) * 2.0 * half * sz;
+                            let (lo, la) = rg::vec_to_ll(rg::offset(vtx, x, y));
+                            let (res, branch) = subj::lookup_branch(lo, la, r);
+                            grid.push((lo, la, res.ok(), branch));
                         }
                     }
                 }
+            }
+            // edge-hugging interior points of every candidate cell: 1.1 % and 3 % of the diameter inside each
+            // edge at 25 positions along it (thin slivers of cells that reach across a seam or past a
+            // dodecahedron vertex are only met there)
+            {
+                let mut extra: Vec<(f64, f64, Option<u64>, i32)> = Vec::new();
+                for (_c, (face, poly)) in polys.iter() {
+                    if poly.is_empty() {
+                        continue;
+                    }
+                    let cen = rg::centroid_mean(poly);
+                    let diam = rg::diameter(poly);
+                    let n = poly.len();
+                    for k in 0..n {
+                        let (a, b) = (poly[k], poly[(k + 1) % n]);
+                        for ti in 0..25 {
+                            let t = 0.02 + 0.04 * ti as f64;
+                            let e = [a[0] + t * (b[0] - a[0]), a[1] + t * (b[1] - a[1])];
+                            let d = [cen[0] - e[0], cen[1] - e[1]];
+                            let dl = (d[0] * d[0] + d[1] * d[1]).sqrt();
+                            for depth in [0.011, 0.02] {
+                                let q = [e[0] + d[0] / dl * depth * diam * 1.3, e[1] + d[1] / dl * depth * diam * 1.3];
+                                if let Ok(v) = subj::inverse(q, *face) {
+                                    let (lo, la) = rg::vec_to_ll(v);
+                                    let (res, branch) = subj::lookup_branch(lo, la, r);
+                                    extra.push((lo, la, res.ok(), branch));
+                                }
+                            }
+                        }
+                    }
+                }
+                grid.extend(extra);
+            }
+            let mut singles: Vec<Viol> = Vec::new();
+            let mut pts: Vec<(f64, f64, u64)> = Vec::new();
+            let mut classified = 0u64;
+            for &(lo, la, got, branch) in &grid {
+                let v = rg::ll_to_vec(lo, la);
+                let mut owner: Option<u64> = None;
+                for (&c, (face, poly)) in polys.iter() {
+                    if poly.is_empty() {
+                        continue;
+                    }
+                    if let Ok(q) = subj::forward(v, *face) {
+                        if q[0] * q[0] + q[1] * q[1] < 1.2 && rg::signed_dist_convex(poly, q) >= 0.008 * rg::diameter(poly) {
+                            owner = Some(c);
+                            break;
+                        }
+                    }
+                }
+                if let Some(c) = owner {
+                    classified += 1;
+                    if got != Some(c) && singles.is_empty() {
+                        singles.push(viol(
+                            "C02/interior",
+                            format!("point ({}, {}) lies more than 0.8 % of a cell diameter inside {} (planar test) but looks up to {:?} at resolution {} ({})", lo, la, subj::hex(c), got.map(subj::hex), r, branch_name(branch)),
+                            json!({"kind": "interior", "id": subj::hex(c), "lon": lo, "lat": la, "res": r}),
+                        ));
+                    }
+                    if branch != 1 {
+                        pts.push((lo, la, c));
+                    }
+                }
+            }
+            if !singles.is_empty() {
+                return (classified, singles);
             }
             // spread the selection over the whole cluster
             if pts.len() > cap {
@@ -459,6 +559,73 @@ pub fn run_c02(tier: &str) -> Report {
     let special = super::cells::special_cells(if tier == "quick" { 20 } else { 8 }, 29, tier != "quick");
     let vs: Vec<Viol> = special.par_iter().flat_map(|&c| check_cell_c02(c, true, &st, &strict)).collect();
     rep.sink.extend(vs);
+    // points well inside the REPORTED boundary ring (the property's second clause): from every reported
+    // corner 10 %, 20 % and 50 % of the way to the reported centre, and from every reported edge midpoint
+    // 10 % of the way; for cells that straddle a face edge, a sector ray or a vertex at fine resolutions
+    // (found by looking up points on those lines) and for the word-aligned cells
+    let mut ring_points = 0u64;
+    {
+        let fine: &[i32] = if tier == "quick" { &[20, 23, 26, 29] } else { &[12, 16, 18, 20, 21, 22, 23, 24, 25, 26, 27, 28, 29] };
+        let mut cells: Vec<u64> = Vec::new();
+        let frame_pts = en::frame_points_ladder(tier != "quick", 0);
+        for (i, fp) in frame_pts.iter().enumerate() {
+            if fp.tag == "frame-vertex-offset" && i % 4 != 0 {
+                continue;
+            }
+            let (lon, lat) = rg::vec_to_ll(fp.v);
+            for &r in fine {
+                if let Ok(c) = subj::lookup(lon, lat, r) {
+                    if rc::resolution(c) == Some(r) {
+                        cells.push(c);
+                    }
+                }
+            }
+        }
+        cells.extend(en::aligned_cells().into_iter().step_by(if tier == "quick" { 8 } else { 1 }));
+        cells.sort_unstable();
+        cells.dedup();
+        let cnt = AtomicU64::new(0);
+        let vs: Vec<Viol> = cells
+            .par_iter()
+            .flat_map(|&c| {
+                let mut out = Vec::new();
+                let r = rc::resolution(c).unwrap();
+                let (ring, centre) = match (subj::boundary(c, false, Some(1)), subj::centre(c)) {
+                    (Ok(ring), Ok(cc)) => (ring, cc),
+                    _ => return out,
+                };
+                let cv = rg::ll_to_vec(centre.0, centre.1);
+                let rv: Vec<V3> = ring.iter().map(|&(lo, la)| rg::ll_to_vec(lo, la)).collect();
+                let mut probes: Vec<V3> = Vec::new();
+                for (k, v) in rv.iter().enumerate() {
+                    for f in [0.1, 0.2, 0.5] {
+                        probes.push(rg::unit(rg::add(rg::scale(*v, 1.0 - f), rg::scale(cv, f))));
+                    }
+                    let m = rg::unit(rg::add(*v, rv[(k + 1) % rv.len()]));
+                    probes.push(rg::unit(rg::add(rg::scale(m, 0.9), rg::scale(cv, 0.1))));
+                }
+                for p in probes {
+                    let (lon, lat) = rg::vec_to_ll(p);
+                    cnt.fetch_add(1, Ordering::Relaxed);
+                    match subj::lookup(lon, lat, r) {
+                        Ok(id) if id == c => {}
+                        other => {
+                            out.push(viol(
+                                "C02/inside-reported-ring",
+                                format!("point ({}, {}) lies well inside the ring cell_to_boundary reports for {} (between a reported corner or edge midpoint and the reported centre) but looks up to {:?}", lon, lat, subj::hex(c), other.map(subj::hex)),
+                                json!({"kind": "ring_interior", "id": subj::hex(c), "lon": lon, "lat": lat}),
+                            ));
+                            break;
+                        }
+                    }
+                }
+                out
+            })
+            .collect();
+        rep.sink.extend(vs);
+        ring_points += cnt.load(Ordering::Relaxed);
+    }
+    rep.set("points_inside_reported_rings", json!(ring_points));
     let (clusters, cluster_pair_count, vs) = cluster_pairs(tier);
     rep.sink.extend(vs);
     rep.set("neighbour_clusters", json!(clusters));
@@ -501,6 +668,14 @@ pub fn replay(prop: &str, case: &Value) -> Vec<Viol> {
             .unwrap_or_default()
         }
         ("C01", "lookup") => check_lookup(case["lon"].as_f64().unwrap(), case["lat"].as_f64().unwrap(), case["res"].as_i64().unwrap() as i32, &st, true),
+        ("C02", "ring_interior") => {
+            let c = u64::from_str_radix(case["id"].as_str().unwrap(), 16).unwrap();
+            let (lon, lat) = (case["lon"].as_f64().unwrap(), case["lat"].as_f64().unwrap());
+            match subj::lookup(lon, lat, rc::resolution(c).unwrap_or(0)) {
+                Ok(id) if id == c => vec![],
+                other => vec![viol("C02/inside-reported-ring", format!("looks up to {:?}", other.map(subj::hex)), case.clone())],
+            }
+        }
         ("C02", "interior_after") => {
             let c = u64::from_str_radix(case["id"].as_str().unwrap(), 16).unwrap();
             let (lon, lat, r) = (case["lon"].as_f64().unwrap(), case["lat"].as_f64().unwrap(), case["res"].as_i64().unwrap() as i32);
